@@ -301,6 +301,11 @@ def duplicate_scan(F):
                 lam = F.functions.get(a[2][1]) if a[2][0] == "lambda" else None
                 pred_ok = False
                 shown = "?"
+                if a[2][0] == "func":
+                    # the comparison function itself handed over as the predicate
+                    pf = F.functions.get(a[2][1])
+                    shown = (pf.qn if pf else str(a[2][1])).split("(")[0]
+                    pred_ok = shown.endswith("StringUtility::IsEqual")
                 if lam is not None and len(lam.params) == 2:
                     rs = [x for x in lam.nodes if x["k"] == "ReturnStmt" and "value" in x]
                     if len(rs) == 1:
@@ -320,6 +325,12 @@ def duplicate_scan(F):
                         guarded = ct[0] == "opcall" and ct[1] == "!=" and set(ct[2]) == {fn.term(nd["id"]), a[1]}
                 if rng and pred_ok and guarded:
                     return [ok("R-SIB", inst, fn.loc(nd["id"]), fn.qn, req, "adjacent_find over the whole list with IsEqual; a found pair is refused")]
+                ends_ok = a[1][0] == "call" and a[1][1].endswith("end") and a[1][2] == nm
+                from ..flow import mentions as _m
+                if not rng and pred_ok and guarded and _m(a[0], nm):
+                    return [bad("R-SIB", inst, fn.loc(nd["id"]), fn.qn, req,
+                                "the scan runs over [%s, %s), not over the whole list: std::adjacent_find compares each element with its successor, so %s is never compared" % (
+                                    fmt_term(a[0]), fmt_term(a[1]), "the first pair" if ends_ok else "part of the list"))]
                 if rng and guarded and not pred_ok:
                     return [bad("R-SIB", inst, fn.loc(nd["id"]), fn.qn, req, "adjacent names are compared with `%s`, not with StringUtility::IsEqual" % shown)]
     if len(loops) != 1:
@@ -408,6 +419,34 @@ def extension_matches(F):
         else:
             pre.append(ok("R-SIB", XF + "ExtensionMatches#early-length-test", fn.loc(r["id"]), fn.qn,
                           "a length comparison may reject only the strings that are finally compared", "tested after the last change of length"))
+    # the leading dot is supplied only for a non-empty extension: an empty request means "no extension" and must stay empty
+    from ..flow import Engine, Summaries, final_site_facts
+    from ..prove import prove_le
+    eng = Engine(F, Summaries(F))
+    eng.analyze(fn, frozenset())
+    for nd in fn.nodes:
+        grows = None
+        if nd["k"] == "CXXMemberCallExpr" and "obj" in nd and fn.term(nd["obj"]) in sides and nd.get("fname") in ("insert", "append", "push_back"):
+            grows = fn.term(nd["obj"])
+        elif nd["k"] == "CXXOperatorCallExpr" and nd.get("op") in ("=", "+=") and nd.get("args") and fn.term(nd["args"][0]) in sides \
+                and "b'.'" in repr(fn.term(nd["args"][1])) or (nd["k"] == "CXXOperatorCallExpr" and nd.get("op") == "+=" and nd.get("args") and fn.term(nd["args"][0]) in sides):
+            grows = fn.term(nd["args"][0])
+        if grows is None:
+            continue
+        site = final_site_facts(eng, fn, nd["id"])
+        if site is None:
+            continue
+        sz = ("size", grows)
+        nonempty = any((f[0] == "!=" and sz in (f[1], f[2]) and ("const", 0) in (f[1], f[2])) or
+                       (f[0] == "<" and f[2] == sz and f[1][0] == "const" and f[1][1] >= 0) or
+                       (f[0] == "<=" and f[2] == sz and f[1][0] == "const" and f[1][1] >= 1) for f in site)
+        inst2 = XF + "ExtensionMatches#dot-only-when-nonempty"
+        req2 = "a leading dot is added only to a non-empty requested extension (the empty extension selects names without one)"
+        if nonempty:
+            pre.append(ok("R-SIB", inst2, fn.loc(nd["id"]), fn.qn, req2, "size() > 0 holds where the dot is inserted"))
+        else:
+            pre.append(bad("R-SIB", inst2, fn.loc(nd["id"]), fn.qn, req2,
+                           "nothing excludes an empty %s where it is extended: \"\" becomes \".\" and no longer matches names without an extension" % fmt_term(grows)))
     upper = set()
     for nd in fn.nodes:
         if nd["k"] in CALLS and (nd.get("fq") or "").endswith("ConvertToUpperInPlace"):
@@ -421,6 +460,48 @@ def extension_matches(F):
     if all(s in upper for s in sides):
         return pre + [ok("R-SIB", inst, fn.loc(rets[0]["id"]), fn.qn, req, "%s == %s, both upper-cased" % (fmt_term(sides[0]), fmt_term(sides[1])))]
     return pre + [bad("R-SIB", inst, fn.loc(rets[0]["id"]), fn.qn, req, "not upper-cased: %s" % ", ".join(fmt_term(s) for s in sides if s not in upper))]
+
+
+def append_refusals(F):
+    """XFile::Append refuses exactly the second arguments that have a root component: every refusal in it is guarded by a
+    disjunction of root tests (has_root_name / has_root_directory of a path made from that argument, or HasRootComponent of
+    it). Any other refusal turns away relative paths, for which join / split must work."""
+    from ..rules_sib import enclosing_if_cond
+    fn = F.fn(XF + "Append", nparams=2)
+    p1 = P(fn, 1)
+    inst = XF + "Append#refuses-only-rooted"
+    req = "the only second arguments refused are those with a root name or root directory"
+    # locals that are a filesystem path built from the second argument
+    pathvars = set()
+    for nd in fn.nodes:
+        if nd["k"] == "DeclStmt":
+            for d in nd.get("decls", []):
+                if "init" in d and "d" in d:
+                    t = fn.term(d["init"])
+                    if t[0] == "ctor" and t[2] == (p1,) and "path" in (t[1] or ""):
+                        pathvars.add(("var", d["n"], d["d"]))
+
+    def root_test(t):
+        if t[0] == "op" and t[1] == "||":
+            return root_test(t[2]) and root_test(t[3])
+        if t[0] == "call" and t[1].split("::")[-1] in ("has_root_name", "has_root_directory", "has_root_path", "is_absolute") and t[2] is not None:
+            o = t[2]
+            return o in pathvars or (o[0] == "ctor" and o[2] == (p1,))
+        if t[0] == "call" and t[1] == XF + "HasRootComponent" and t[3] == (p1,):
+            return True
+        return False
+
+    throws = [nd for nd in fn.nodes if nd["k"] == "CXXThrowExpr"]
+    if not throws:
+        return [bad("R-GUARD", inst, fn.loc(fn.body), fn.qn, req, "no refusal at all: a rooted second argument replaces the first")]
+    for th in throws:
+        cid, in_then = enclosing_if_cond(fn, th["id"])
+        t = fn.term(cid) if cid is not None else None
+        # (HasRootComponent is a single-return helper and reads as its expression over a path built from its argument)
+        if t is None or not in_then or not root_test(t):
+            return [bad("R-GUARD", inst, fn.loc(th["id"]), fn.qn, req,
+                        "a refusal under `%s`: relative second arguments are turned away (Append(dir, name) must give dir/name for every relative name)" % (fmt_term(t) if t else "no condition"))]
+    return [ok("R-GUARD", inst, fn.loc(throws[0]["id"]), fn.qn, req, "%d refusal(s), each under a root test of the second argument" % len(throws))]
 
 
 def debruijn(F):
@@ -525,6 +606,7 @@ def check(F, run, tier):
     run.add(duplicate_scan(F))
     run.add(paths_are_equal(F))
     run.add(extension_matches(F))
+    run.add(append_refusals(F))
     run.add(convert_to_upper(F))
     run.add(debruijn(F))
     run.add(is_power_of_2(F))
